@@ -84,6 +84,19 @@ type C18Case struct {
 	CrashKind   string            `json:"crash_kind"`   // "" | "create" | "update": the state left by an interrupted earlier run
 	CrashAfter  int               `json:"crash_after"`  // index into the walk: entries before it are complete
 	CrashAtByte int               `json:"crash_at_byte"` // the entry at CrashAfter is a file cut at this byte (if it is a file)
+	// CrashRemoved: (update crash) the entry at CrashAfter had been removed and not yet created again when the run stopped
+	CrashRemoved bool `json:"crash_removed,omitempty"`
+	// Links: a user file that shares its data with a factory file: "hard" = the user file is a hard link of the factory file
+	// (the user "copied" it with cp -l / ln and then edited it in place, which makes the factory file count as modified),
+	// "sym" = the factory path is a symbolic link to the user file
+	Links []c18Link `json:"links,omitempty"`
+}
+
+type c18Link struct {
+	Kind    string `json:"kind"`
+	Factory string `json:"factory"`
+	User    string `json:"user"`
+	Data    []byte `json:"data"`
 }
 
 func snapshot(root string) map[string]string {
@@ -220,6 +233,37 @@ func buildC18(c *C18Case) error {
 			return err
 		}
 	}
+	for _, l := range c.Links {
+		if _, err := os.Lstat(l.Factory); err != nil {
+			continue // that factory file is absent in this case
+		}
+		_ = os.MkdirAll(filepath.Dir(l.User), 0o777)
+		_ = os.Remove(l.User)
+		switch l.Kind {
+		case "hard":
+			if err := os.Link(l.Factory, l.User); err != nil {
+				return err
+			}
+			f, err := os.OpenFile(l.User, os.O_WRONLY|os.O_TRUNC, 0)
+			if err != nil {
+				return err
+			}
+			_, err = f.Write(l.Data) // edited in place: same inode
+			f.Close()
+			if err != nil {
+				return err
+			}
+		case "sym":
+			if err := os.WriteFile(l.User, l.Data, 0o666); err != nil {
+				return err
+			}
+			abs, _ := filepath.Abs(l.User)
+			_ = os.Remove(l.Factory)
+			if err := os.Symlink(abs, l.Factory); err != nil {
+				return err
+			}
+		}
+	}
 	if c.CrashKind == "update" {
 		// an earlier upkeep run over this very state was interrupted: factory files before CrashAfter are already
 		// restored, the one at CrashAfter was opened with truncation and cut at a byte, the rest is as above
@@ -230,6 +274,10 @@ func buildC18(c *C18Case) error {
 			}
 			data := e.Data
 			if i == c.CrashAfter {
+				if c.CrashRemoved {
+					_ = os.Remove(e.Path)
+					continue
+				}
 				cut := c.CrashAtByte
 				if cut > len(data) {
 					cut = len(data)
@@ -436,6 +484,7 @@ func genC18(t *rapid.T) C18Case {
 		c.DirExists = true
 		c.CrashAfter = rapid.IntRange(0, len(files)-1).Draw(t, "crashAfter")
 		c.CrashAtByte = rapid.IntRange(0, len(files[c.CrashAfter].Data)).Draw(t, "crashByte")
+		c.CrashRemoved = rapid.IntRange(0, 3).Draw(t, "crashRemoved") == 0
 	}
 	if !c.DirExists {
 		return c
@@ -467,6 +516,11 @@ func genC18(t *rapid.T) C18Case {
 		if rapid.IntRange(0, 2).Draw(t, "hasUser") == 0 {
 			c.User = append(c.User, c18File{Path: n, Data: genBytes(t, "user")})
 		}
+	}
+	if c.CrashKind == "" && rapid.IntRange(0, 7).Draw(t, "linked") == 0 {
+		f := files[rapid.IntRange(0, len(files)-1).Draw(t, "linkedFactory")]
+		c.Links = append(c.Links, c18Link{Kind: rapid.SampledFrom([]string{"hard", "hard", "sym"}).Draw(t, "linkKind"), Factory: f.Path,
+			User: "hidi-config/user/keyboard/my_copy.toml", Data: append([]byte("# my own version\n"), genBytes(t, "linkedData")...)})
 	}
 	if rapid.IntRange(0, 3).Draw(t, "hasHidi") > 0 {
 		b := genBytes(t, "hidi")
